@@ -127,7 +127,12 @@ impl<T: Types> RaftLogWriter<T> for RaftLog<T> {
 
         while let Some((_chunk_id, closed)) = self.wal.closed.first_key_value()
         {
-            if closed.state.last.as_ref() > Some(&upto) {
+            // Compare by log index, not by log id: after a truncation the log
+            // may continue with a lower term, so a closed chunk can end with a
+            // log id that is greater than `upto` although every index in it is
+            // purged.
+            let closed_last_index = closed.state.last.as_ref().map(T::log_index);
+            if closed_last_index > Some(T::log_index(&upto)) {
                 break;
             }
             let (chunk_id, _r) = self.wal.closed.pop_first().unwrap();
